@@ -26,11 +26,71 @@ REDUCERS = {"sorted", "len", "min", "max", "sum", "any", "all", "bool", "set", "
 # Sort keys known to be injective on the elements they are applied to (a keyed sort is a total
 # order -- and hence a sanitiser -- only then: ties keep the incoming, unordered, order).
 INJECTIVE_KEYS = {
-  ("useractions.UserActions.doBulkRemoveRecord", "lambda c: c.node"):
+  # (module, canonical key text, required suffix of what is sorted or None): reason
+  ("useractions", "lambda x: x.node", "._back_references"):
     "a column's node (table_id, col_id) identifies it uniquely among the back references",
-  ("lookup.LookupMapColumn._do_lookup_with_sort", "sort_key"):
+  ("lookup", "sort_key", None):
     "SortKey compares the sort values and then the row id (sort_key.py), None means plain sorted",
 }
+
+
+def _key_function(fn, key):
+  """(parameter name, [result expressions]) of a sort key written as a lambda, as a local `def`
+  (or a local bound to a lambda) of the enclosing function; None when it is neither."""
+  from .rules._h_F import local_function, function_results, all_params
+  f = local_function(fn, key)
+  if f is None:
+    return None
+  ps = all_params(f)
+  if isinstance(f, ast.Lambda):
+    if len(ps) != 1:
+      return None
+    return ps[0], [f.body]
+  if len(ps) != 1 or f.args.defaults:
+    return None
+  try:
+    leaves = [leaf for (facts, leaf) in function_results(fn.world, f, fn.fi)]
+  except Exception:
+    return None
+  if not leaves:
+    return None
+  return ps[0], leaves
+
+
+def key_canon(fn, key):
+  """Spelling-independent text of a sort key: `lambda x: <result>` with the parameter renamed to
+  x, whether the key is an inline lambda or a named local function returning that expression."""
+  kf = _key_function(fn, key)
+  if kf is None or len(kf[1]) != 1:
+    return text(key)
+  p, (body,) = kf
+  import copy
+  b = copy.deepcopy(body)
+  for n in ast.walk(b):
+    if isinstance(n, ast.Name) and n.id == p:
+      n.id = "x"
+  return "lambda x: " + text(b)
+
+
+def key_has_element(fn, call):
+  """sorted(...)/.sort(...) whose key (every result of it) is the element itself or a tuple with
+  the element as a member: ties are impossible between distinct elements."""
+  key = None
+  for k in call.keywords:
+    if k.arg == "key":
+      key = k.value
+  if key is None:
+    return True
+  kf = _key_function(fn, key)
+  if kf is None:
+    return False
+  p, leaves = kf
+  def has(body):
+    if isinstance(body, ast.Name) and body.id == p:
+      return True
+    return isinstance(body, ast.Tuple) and any(isinstance(e, ast.Name) and e.id == p
+                                               for e in body.elts)
+  return all(has(b) for b in leaves)
 
 
 def key_is_injective(fn, call):
@@ -39,17 +99,28 @@ def key_is_injective(fn, call):
   for k in call.keywords:
     if k.arg == "key":
       key = k.value
-  if key is None:
+  if key is None or key_has_element(fn, call):
     return True
-  if isinstance(key, ast.Lambda) and len(key.args.args) == 1:
-    p = key.args.args[0].arg
-    body = key.body
-    if isinstance(body, ast.Name) and body.id == p:
+  mod = fn.fi.module.name if getattr(fn.fi, "module", None) is not None else None
+  canon = {key_canon(fn, key), text(key)}
+  for (m, k, suffix) in INJECTIVE_KEYS:
+    if m != mod or k not in canon:
+      continue
+    if suffix is None:
       return True
-    if isinstance(body, ast.Tuple) and any(isinstance(e, ast.Name) and e.id == p
-                                           for e in body.elts):
+    subject = call.args[0] if call.args else None
+    if subject is None and isinstance(call.func, ast.Attribute):
+      subject = call.func.value          # <list>.sort(key=...)
+    if subject is None:
+      continue
+    if text(subject).endswith(suffix):
       return True
-  return (fn.qualname, text(key)) in INJECTIVE_KEYS
+    from .rules._h_F import res_of
+    r = res_of(fn.world, fn)
+    at = r.node_of_expr(call)
+    if at and r.norm(subject, at[0].id).endswith(suffix):
+      return True
+  return False
 
 
 class FnTaint(object):
